@@ -113,6 +113,19 @@ def mat_buf(rnd, tc, rows, cols, a, ldkey, offkey, natural_rows=None, use_defaul
         if rnd.random() < 0.08 and ncols > 0:
             ncols -= 1
         return {"nr": nr, "nc": ncols, "d": [rnd_val(rnd, tc) for _ in range(nr * ncols)]}
+    if r < 0.65:
+        # a matrix whose number of rows is the natural one (so that omitted dimensions take the intended defaults) addressed with an
+        # EXPLICIT leading dimension (every t-th column) and possibly an offset
+        nr = minld if rows > 0 or natural_rows is not None else 1
+        t = rnd.choice([1, 1, 2])
+        ncols = max(0, (cols - 1) * t + 1) if cols > 0 else 0
+        skip = rnd.choice([0, 0, 1])
+        ncols += skip * t + (1 if rnd.random() < 0.15 else 0)
+        a[ldkey] = nr * t if rnd.random() < 0.9 else max(0, nr * t - 1)
+        a[offkey] = rnd.choice([0, 0, skip * t * nr, skip * t * nr, 1, 2, -1 if rnd.random() < 0.1 else 0])
+        if t == 1 and skip == 0 and rnd.random() < 0.5:
+            ncols = cols                      # exactly the natural shape
+        return {"nr": nr, "nc": ncols, "d": [rnd_val(rnd, tc) for _ in range(nr * ncols)]}
     ld = minld + rnd.choice([0, 0, 1, 2]) if rnd.random() < 0.92 else max(0, minld - 1)
     a[ldkey] = ld
     a[offkey] = pick_off(rnd)
@@ -181,13 +194,13 @@ def gen_call(rnd, f):
             a["trans"] = flag(rnd, ["N", "T", "C"])
         if f == "gemv":
             b["A"] = mat_buf(rnd, tc, m, n, a, "ldA", "offsetA")
-            if a["ldA"] == 0 and rnd.random() < 0.7 and b["A"]["nr"] == max(1, m) and (m > 0):
+            if rnd.random() < 0.7 and b["A"]["nr"] == max(1, m) and (m > 0):
                 a["m"], a["n"] = -1, (-1 if b["A"]["nc"] == n else n)
             else:
                 a["m"], a["n"] = m, n
         elif f in ("symv", "hemv"):
             b["A"] = mat_buf(rnd, tc, n, n, a, "ldA", "offsetA")
-            a["n"] = -1 if (a["ldA"] == 0 and b["A"]["nr"] == b["A"]["nc"] == n and rnd.random() < 0.7) else n
+            a["n"] = -1 if (b["A"]["nr"] == b["A"]["nc"] == n and rnd.random() < 0.7) else n
             if rnd.random() < 0.03:
                 a["n"] = -1
         else:
@@ -199,7 +212,7 @@ def gen_call(rnd, f):
                 k = rnd.randint(0, 2)
                 rows = k + 1
             b["A"] = mat_buf(rnd, tc, rows, n, a, "ldA", "offsetA", natural_rows=rows)
-            dflt = a["ldA"] == 0 and b["A"]["nr"] == rows and rnd.random() < 0.7
+            dflt = b["A"]["nr"] == rows and rnd.random() < 0.7
             if f == "gbmv":
                 a["ku"] = -1 if dflt else ku
             else:
@@ -221,12 +234,12 @@ def gen_call(rnd, f):
         if band:
             k = rnd.randint(0, 2)
             b["A"] = mat_buf(rnd, tc, k + 1, n, a, "ldA", "offsetA", natural_rows=k + 1)
-            a["k"] = -1 if (a["ldA"] == 0 and b["A"]["nr"] == k + 1 and rnd.random() < 0.7) else k
+            a["k"] = -1 if (b["A"]["nr"] == k + 1 and rnd.random() < 0.7) else k
             a["n"] = -1 if (b["A"]["nc"] == n and rnd.random() < 0.5) else n
             set_units_tri(b["A"], a, n, "ldA", "offsetA", band_k=k)
         else:
             b["A"] = mat_buf(rnd, tc, n, n, a, "ldA", "offsetA")
-            a["n"] = -1 if (a["ldA"] == 0 and b["A"]["nr"] == b["A"]["nc"] == n and rnd.random() < 0.7) else n
+            a["n"] = -1 if (b["A"]["nr"] == b["A"]["nc"] == n and rnd.random() < 0.7) else n
             if rnd.random() < 0.03:
                 a["n"] = -1
             set_units_tri(b["A"], a, n, "ldA", "offsetA")
@@ -243,7 +256,7 @@ def gen_call(rnd, f):
         if not gen:
             a["uplo"] = flag(rnd, ["L", "U"])
         b["A"] = mat_buf(rnd, tc, m, n, a, "ldA", "offsetA")
-        dflt = a["ldA"] == 0 and b["A"]["nr"] == max(1, m) and m > 0 and b["A"]["nc"] == n and rnd.random() < 0.7
+        dflt = b["A"]["nr"] == max(1, m) and m > 0 and b["A"]["nc"] == n and rnd.random() < 0.7
         if gen:
             a["m"], a["n"] = (-1, -1) if dflt else (m, n)
         else:
@@ -265,7 +278,7 @@ def gen_call(rnd, f):
             b["A"] = mat_buf(rnd, tc, rA, cA, a, "ldA", "offsetA")
             b["B"] = mat_buf(rnd, tc, rB, cB, a, "ldB", "offsetB")
             b["C"] = mat_buf(rnd, tc, m, n, a, "ldC", "offsetC")
-            dflt = all(a[x] == 0 for x in ("ldA", "ldB")) and (b["A"]["nr"], b["A"]["nc"]) == (max(1, rA) if rA else b["A"]["nr"], cA) \
+            dflt = (b["A"]["nr"], b["A"]["nc"]) == (max(1, rA) if rA else b["A"]["nr"], cA) \
                 and (b["B"]["nr"], b["B"]["nc"]) == (max(1, rB) if rB else b["B"]["nr"], cB) and rA > 0 and rB > 0
             a["m"], a["n"], a["k"] = (-1, -1, -1) if (dflt and rnd.random() < 0.7) else (m, n, k)
             if rnd.random() < 0.03:
@@ -279,7 +292,7 @@ def gen_call(rnd, f):
             b["C"] = mat_buf(rnd, tc, m, n, a, "ldC", "offsetC")
             if f == "hemm":
                 set_real_diag(b["A"], a, na, "ldA", "offsetA")
-            dflt = a["ldB"] == 0 and (b["B"]["nr"], b["B"]["nc"]) == (m, n) and m > 0
+            dflt = (b["B"]["nr"], b["B"]["nc"]) == (m, n) and m > 0 and (b["A"]["nr"], b["A"]["nc"]) == (na, na)
             a["m"], a["n"] = (-1, -1) if (dflt and rnd.random() < 0.7) else (m, n)
         elif f in ("syrk", "herk", "syr2k", "her2k"):
             herm = f in ("herk", "her2k")
@@ -301,8 +314,8 @@ def gen_call(rnd, f):
             b["C"] = mat_buf(rnd, tc, n, n, a, "ldC", "offsetC")
             if herm:
                 set_real_diag(b["C"], a, n, "ldC", "offsetC")
-            dflt = a["ldA"] == 0 and (b["A"]["nr"], b["A"]["nc"]) == (rA, cA) and rA > 0 and \
-                (not two or (a["ldB"] == 0 and (b["B"]["nr"], b["B"]["nc"]) == (rA, cA)))
+            dflt = (b["A"]["nr"], b["A"]["nc"]) == (rA, cA) and rA > 0 and \
+                (not two or ((b["B"]["nr"], b["B"]["nc"]) == (rA, cA)))
             a["n"], a["k"] = (-1, -1) if (dflt and rnd.random() < 0.7) else (n, k)
         else:
             a["side"], a["uplo"] = flag(rnd, ["L", "R"]), flag(rnd, ["L", "U"])
@@ -310,7 +323,7 @@ def gen_call(rnd, f):
             na = m if a["side"] == "L" else n
             b["A"] = mat_buf(rnd, tc, na, na, a, "ldA", "offsetA")
             b["B"] = mat_buf(rnd, tc, m, n, a, "ldB", "offsetB")
-            dflt = a["ldA"] == 0 and a["ldB"] == 0 and (b["A"]["nr"], b["A"]["nc"]) == (na, na) and (b["B"]["nr"], b["B"]["nc"]) == (m, n) and m > 0 and n > 0
+            dflt = (b["A"]["nr"], b["A"]["nc"]) == (na, na) and (b["B"]["nr"], b["B"]["nc"]) == (m, n) and m > 0 and n > 0
             a["m"], a["n"] = (-1, -1) if (dflt and rnd.random() < 0.7) else (m, n)
             set_units_tri(b["A"], a, na, "ldA", "offsetA")
     # conflicting typecodes: rarely make one buffer of the other type
